@@ -3,6 +3,7 @@ object's own _verif_signals) as (object_path, name, signature, args). '''
 import functools
 
 LOG = []
+LOST = []  # signals raised on an object no longer exported (never reach the bus)
 HOOKS = []   # callables (obj, name, signature, args)
 
 
@@ -19,6 +20,7 @@ class Object(object):
         self._verif_conn = conn
         self._verif_path = object_path
         self._verif_signals = []
+        self._verif_lost = []
         self.locations = [(conn, object_path)] if object_path else []
 
     def remove_from_connection(self, connection=None, path=None):
@@ -31,6 +33,15 @@ def signal(dbus_interface, signature=None, **kw):
         def emit(self, *args, **kwargs):
             func(self, *args, **kwargs)
             rec = (getattr(self, '_verif_path', None), func.__name__, signature, args)
+            # dbus-python sends one message per location: an object which has been removed from its
+            # connection runs the method body but emits nothing
+            if not getattr(self, 'locations', True):
+                LOST.append(rec)
+                try:
+                    self._verif_lost.append(rec)
+                except AttributeError:
+                    pass
+                return
             LOG.append(rec)
             try:
                 self._verif_signals.append(rec)
